@@ -420,7 +420,7 @@ def explore_cfg(cfg, rep, max_execs=None):
 
 def gen_cfgs(tier):
     cfgs = []
-    kmax = 3 if tier == 'quick' else 4
+    kmax = 3 if tier == 'quick' else 5
     for k in range(0, kmax + 1):
         for cap in (0, 1, 2, 3, 4):
             if cap > k + 1:
@@ -437,8 +437,11 @@ def gen_cfgs(tier):
                     for susp in (False, True):
                         if tier == 'quick' and susp and (k > 1 or s > 1):
                             continue
+                        # (the stateless search multiplies the independent steps of two tasks: keep the product finite)
+                        if tier != 'quick' and susp and ((k == 3 and s > 1) or (k == 2 and s > 1)):
+                            continue
                         cfgs.append({'shape': 'B', 'k': k, 'cap': cap, 'disc': True, 'r': r, 's': s, 'send_suspends': susp})
-    kc = 2 if tier == 'quick' else 3
+    kc = 2 if tier == 'quick' else 4
     for k in range(0, kc + 1):
         for cap in (0, 1, 2, 3):
             if cap > k + 1:
@@ -466,7 +469,7 @@ def run_batch(batch, rep):
 
 def check(rep):
     cfgs = gen_cfgs(rep.tier)
-    rep.bounds = {'deliveries_k<=': 3 if rep.tier == 'quick' else 4, 'capacities': [0, 1, 2, 3, 4], 'shapes': 'A single receiver; '
+    rep.bounds = {'deliveries_k<=': '3 (A), 2 (B, C, D)' if rep.tier == 'quick' else '5 (A), 3 (B; with suspending sends: one send, or two sends for k<=1), 4 (C, D)', 'capacities': [0, 1, 2, 3, 4], 'shapes': 'A single receiver; '
                   'B receiver+sender task (send may suspend); C pending receive cancelled externally; D close while a receive is pending',
                   'configs': len(cfgs), 'schedules': 'ALL interleavings of loop steps and environment events (no deviation bound)'}
     rep.rule = ('stateless DFS over all choice sequences; one choice point wherever more than one of {next loop handle, server '
